@@ -381,12 +381,25 @@ func (a *agg) confirm() {
 	if len(sigs) > 12 {
 		sigs = sigs[:12]
 	}
+	// A tree that lets accesses leave the memory (a stale base after a moved buffer, say) depends on the state of the
+	// heap, so one of several signatures may fail to reproduce in a fresh process: that is only a harness problem when
+	// NO signature reproduces. Unreproduced ones are named; the reproduced ones carry the verdict.
+	confirmed := 0
+	var firstUnrep string
 	for k, s := range sigs {
 		failed, what := a.runSingle(a.first[s], fmt.Sprintf("confirm%d", k))
 		if !failed {
-			a.fatalf("violation %s (%s) did not reproduce in a fresh process: %s", s, a.first[s], what)
+			if firstUnrep == "" {
+				firstUnrep = fmt.Sprintf("violation %s (%s) did not reproduce in a fresh process: %s", s, a.first[s], what)
+			}
+			fmt.Printf("NOT REPRODUCED in a fresh process: %s\n", s)
+			continue
 		}
+		confirmed++
 		fmt.Printf("CONFIRMED in a fresh process: %s\n", s)
+	}
+	if confirmed == 0 && firstUnrep != "" {
+		a.fatalf("%s", firstUnrep)
 	}
 }
 
